@@ -358,6 +358,7 @@ impl<T: Eq + Hash> FrequentItemsSketch<T> {
         &&& self.cur_map_cap == self.hash_map.load_threshold
         &&& self.hash_map.num_active <= self.cur_map_cap + slack
         &&& self.sample_size > 0
+        &&& self.sample_size as nat == (if cap_of(self.lg_max_map_size) < 1024 { cap_of(self.lg_max_map_size) } else { 1024 })
         &&& self.hash_map.msum() + self.offset <= self.stream_weight
     }
     spec fn wf(&self) -> bool { self.wf_but(0) }
@@ -375,7 +376,8 @@ else {
 LG_MIN_MAP_SIZE }
 ) ,
 /*@C07.empty_model*/ r . models ( Seq :: < ( T , u64 ) > :: empty ( ) ) ,
-/*@C18.fi_capacity*/ r . hash_map . num_active <= cap_of ( r . lg_max_map_size ) , {
+/*@C18.fi_capacity*/ r . hash_map . num_active <= cap_of ( r . lg_max_map_size ) ,
+/*@C07.purge_sample_size*/ r . sample_size as nat == ( if cap_of ( r . lg_max_map_size ) < 1024 { cap_of ( r . lg_max_map_size ) } else { 1024 } ) , {
 let lg_max = lg_max_map_size . max ( LG_MIN_MAP_SIZE ) ;
 let lg_cur = lg_cur_map_size . max ( LG_MIN_MAP_SIZE ) ;
 assert! ( lg_cur <= lg_max ) ;
